@@ -200,6 +200,7 @@ Proof.
     + pose proof (keeps_connect s hh w) as KC. destruct (connect_handle s hh w) as [s2 code]. cbn [fst] in *.
       eapply keeps_ok; [exact KC|exact K].
     + eapply keeps_ok; [apply keeps_from_cluster|exact K].
+  - apply OH. intros b. cbn. auto.
 Qed.
 
 Lemma frame_keeps s s' : same_frame s s' -> length (s_heap s') = length (s_heap s) -> keeps s s'.
